@@ -1,17 +1,149 @@
 package main
 
 import (
+	"encoding/json"
+	"flag"
 	"fmt"
-	"golang.org/x/tools/go/packages"
-	"golang.org/x/tools/go/ssa"
-	"golang.org/x/tools/go/ssa/ssautil"
+	"os"
+	"path/filepath"
+	"runtime"
+	"sort"
+	"strings"
+	"time"
+)
+
+var (
+	repoDir  = "/repo"
+	verifDir = "/verif"
 )
 
 func main() {
-	cfg := &packages.Config{Mode: packages.LoadAllSyntax, Dir: "/repo", BuildFlags: []string{"-tags=verif"}}
-	pkgs, err := packages.Load(cfg, "./...")
-	if err != nil { panic(err) }
-	prog, spkgs := ssautil.AllPackages(pkgs, ssa.NaiveForm)
-	prog.Build()
-	for _, p := range spkgs { if p != nil { fmt.Println(p.Pkg.Path()) } }
+	if len(os.Args) < 2 {
+		fmt.Fprintln(os.Stderr, "usage: govc check|dev|lock|replay|selftest ...")
+		os.Exit(2)
+	}
+	switch os.Args[1] {
+	case "dev":
+		cmdDev(os.Args[2:])
+	case "check":
+		os.Exit(cmdCheck(os.Args[2:]))
+	case "lock":
+		os.Exit(cmdLock(os.Args[2:]))
+	case "replay":
+		os.Exit(cmdReplay(os.Args[2:]))
+	case "selftest":
+		os.Exit(cmdSelftest(os.Args[2:]))
+	default:
+		fmt.Fprintln(os.Stderr, "unknown command", os.Args[1])
+		os.Exit(2)
+	}
 }
+
+func cmdDev(args []string) {
+	fs := flag.NewFlagSet("dev", flag.ExitOnError)
+	f := fs.String("f", "", "function key (pkgpath::key or unique suffix)")
+	timeout := fs.Int("t", 10, "solver timeout (s)")
+	dump := fs.Bool("dump", false, "keep SMT files and print failing queries' paths")
+	sweep := fs.Bool("sweep", false, "safety-only (no contract needed)")
+	lemma := fs.String("lemma", "", "lemma name")
+	repo := fs.String("repo", repoDir, "")
+	fs.Parse(args)
+	ld, specs, err := Load(*repo, verifDir)
+	if err != nil {
+		fmt.Fprintln(os.Stderr, err)
+		os.Exit(2)
+	}
+	var results []*FuncResult
+	if *lemma != "" {
+		for _, lm := range specs.Lemmas {
+			if lm.Name == *lemma || *lemma == "all" {
+				results = append(results, VerifyLemma(ld, specs, lm))
+			}
+		}
+	} else {
+		var keys []string
+		for k := range ld.funcs {
+			if k == *f || strings.HasSuffix(k, "::"+*f) {
+				keys = append(keys, k)
+			}
+		}
+		if len(keys) == 0 {
+			fmt.Fprintln(os.Stderr, "no such function", *f)
+			os.Exit(2)
+		}
+		for _, k := range keys {
+			results = append(results, VerifyFunc(ld, specs, k, *sweep))
+		}
+	}
+	outDir := filepath.Join(os.TempDir(), fmt.Sprintf("govc-dev-%d", os.Getpid()))
+	var vcs []*VC
+	for _, r := range results {
+		if r.OutOfSubset != "" {
+			fmt.Printf("OUT-OF-SUBSET %s: %s\n", r.Key, r.OutOfSubset)
+		}
+		if r.VC != nil {
+			vcs = append(vcs, r.VC)
+		}
+	}
+	Discharge(vcs, outDir, *timeout, runtime.NumCPU())
+	for _, r := range results {
+		if r.VC == nil {
+			continue
+		}
+		fmt.Printf("== %s (passes %d, stubs %v, inlined %v)\n", r.Key, r.Passes, r.StubsUsed, r.Inlined)
+		for _, o := range r.VC.obls {
+			ok := o.Status == "unsat"
+			if o.Cover {
+				ok = o.Status == "sat"
+			}
+			mark := "ok  "
+			if !ok {
+				mark = "FAIL"
+			}
+			fmt.Printf("  %s %-7s %-7s %6.2fs %7dB  %s  [%s]\n", mark, o.Status, o.Backend, o.TimeS, o.SMTSize, o.Name, o.Pos)
+			if !ok && !o.Cover && o.Status == "sat" {
+				var ks []string
+				for k := range o.Model {
+					ks = append(ks, k)
+				}
+				sort.Strings(ks)
+				for _, k := range ks {
+					lbl := r.ParamSyms[k]
+					fmt.Printf("         %s (%s) = %s\n", k, lbl, o.Model[k])
+				}
+			}
+			if !ok && o.Status != "sat" && *dump {
+				fmt.Printf("         %s\n", firstLine(o.Raw))
+			}
+		}
+	}
+	if !*dump {
+		os.RemoveAll(outDir)
+	} else {
+		fmt.Println("SMT files in", outDir)
+	}
+}
+
+// ---------------------------------------------------------------------------
+
+type evidence struct {
+	PropertyID string                 `json:"property_id"`
+	Tier       string                 `json:"tier"`
+	Seed       int64                  `json:"seed"`
+	Level      string                 `json:"level"`
+	Coverage   map[string]interface{} `json:"coverage"`
+	Assumptions []string              `json:"assumptions"`
+	WallS      float64                `json:"wall_s"`
+	Violations int                    `json:"violations"`
+}
+
+func writeJSON(path string, v interface{}) error {
+	_ = os.MkdirAll(filepath.Dir(path), 0o755)
+	b, err := json.MarshalIndent(v, "", " ")
+	if err != nil {
+		return err
+	}
+	return os.WriteFile(path, append(b, '\n'), 0o644)
+}
+
+var startTime = time.Now()
